@@ -67,6 +67,12 @@ func (g *Gen) calleeInfo(fr *Frame, c *ssa.CallCommon) (key string, fn *ssa.Func
 			}
 		}
 	}
+	// a function value read out of a map/slice held in a struct field: contract keyed on the field
+	if key == "dynamic" {
+		if k := fieldElemOrigin(c.Value, 0); k != "" && g.lookupContract(k) != nil {
+			key = k
+		}
+	}
 	// a function value produced by external code (e.g. the cancel func of context.WithTimeout) can only
 	// touch memory external code could reach: treated like an external call without contract
 	if key == "dynamic" && g.externalFuncValue(c.Value, 0) {
@@ -888,4 +894,44 @@ func (g *Gen) externalFuncValue(v ssa.Value, depth int) bool {
 		return len(x.Edges) > 0
 	}
 	return false
+}
+
+// fieldElemOrigin: "<pkg.Struct.field>#elem" when v is an element obtained from a map/slice loaded from a struct field.
+func fieldElemOrigin(v ssa.Value, depth int) string {
+	if depth > 6 {
+		return ""
+	}
+	switch x := v.(type) {
+	case *ssa.Extract:
+		return fieldElemOrigin(x.Tuple, depth+1)
+	case *ssa.Next:
+		return fieldElemOrigin(x.Iter, depth+1)
+	case *ssa.Range:
+		return fieldElemOrigin(x.X, depth+1)
+	case *ssa.Lookup:
+		return fieldElemOrigin(x.X, depth+1)
+	case *ssa.UnOp:
+		if x.Op.String() != "*" {
+			return ""
+		}
+		if ia, ok := x.X.(*ssa.IndexAddr); ok {
+			return fieldElemOrigin(ia.X, depth+1)
+		}
+		if fa, ok := x.X.(*ssa.FieldAddr); ok {
+			pt, ok := fa.X.Type().Underlying().(*types.Pointer)
+			if !ok {
+				return ""
+			}
+			st, ok := pt.Elem().Underlying().(*types.Struct)
+			if !ok {
+				return ""
+			}
+			n, ok := types.Unalias(pt.Elem()).(*types.Named)
+			if !ok {
+				return ""
+			}
+			return pkgName(n.Obj().Pkg()) + "." + n.Obj().Name() + "." + st.Field(fa.Field).Name() + "#elem"
+		}
+	}
+	return ""
 }
